@@ -98,6 +98,9 @@ class Polygon(Region):
         # polygon must be completely contained in the image. It seems that the
         # code works fine if we make sure that the bottom-left corner of the
         # polygon's bounding box has non-negative coordinates.
+        # convert to integer (pixel centre) coordinates first, so that the
+        # rounding does not depend on where the polygon lies:
+        vertices = list(map(_round_vertex, vertices))
         self._shiftx = 0
         self._shifty = 0
         for vertex in vertices:
@@ -108,10 +111,7 @@ class Polygon(Region):
                 self._shifty = y
         v = [(i - self._shiftx, j - self._shifty) for i, j in vertices]
 
-        # convert to integer coordinates:
-        self._vertices = np.asarray(list(map(_round_vertex, v)))
-        self._shiftx = int(round(self._shiftx))
-        self._shifty = int(round(self._shifty))
+        self._vertices = np.asarray(v)
 
         self._bbox = self._get_bounding_box()
         self._scan_line_range = \
